@@ -50,7 +50,13 @@ impl Node {
             index,
             hash,
             length,
-            parent: flat_tree::parent(index),
+            // the few nodes 62 or more levels up (index 2^62 - 1 and its right spine) have no parent within u64:
+            // flat_tree::parent would shift by 64 or more
+            parent: if flat_tree::depth(index) < 62 {
+                flat_tree::parent(index)
+            } else {
+                u64::MAX
+            },
             data: Some(Vec::with_capacity(0)),
             blank,
         }
